@@ -71,3 +71,18 @@ NA = {
     "C54": "peer store is HashMap + LRU cache",
     "C55": "packet building loops up to the 9000-byte limit and parsing is hickory-proto's Message::from_vec",
 }
+
+RANDSTATE = "stub: std::hash::RandomState::new returns fixed keys (real one needs the getrandom syscall); property does not depend on the hash seed"
+
+PROPS["C34"] = dict(
+    group="gossipsub", files=["c34.rs"],
+    explanation=(
+        "libp2p_gossipsub::ConfigBuilder: symbolic mesh_n, mesh_n_low, mesh_n_high, mesh_outbound_min, "
+        "history_length, history_gossip (< 2^16) and max_transmit_size (any usize) pushed through the real "
+        "setters, then the real build(); for every accepted Config the inequalities of the statement are "
+        "asserted through the real getters. A second harness machine-checks that the two mesh-size "
+        "subtractions in heartbeat cannot underflow under an accepted config (the arithmetic link only)."),
+    bounds="parameters < 65536 (max_transmit_size unbounded); default parameter set; unwind 24 (clone loops over empty maps)",
+    outside="per-topic parameter sets inserted through set_topic_config/mesh_n_for_topic (hashbrown insert is beyond CBMC here, DESIGN section 4); heartbeat itself (hash maps, RNG) — only its arithmetic precondition is checked",
+    stubs=[TRACING, RANDSTATE], assumptions=[FORGET], hooks=[],
+)
